@@ -14,6 +14,7 @@ inductive Op
   | pushManager (m : Obj)             -- stack.push(cm)          (object whose type has __exit__)
   | pushFunction (f : Obj)            -- stack.push(function)
   | pushBoundMethod (self : Obj) (name : Nat)   -- stack.push(obj.method)
+  | pushBuiltinBound (self : Obj)     -- stack.push(lock.__exit__): a bound method of a C-implemented object
   | callback (f : Obj)                -- stack.callback(f, *args, **kw)
   | enterAsyncContext (m : Obj)       -- await stack.enter_async_context(cm)
   | pushAsyncExitManager (m : Obj)    -- stack.push_async_exit(cm)   (type has __aexit__)
@@ -25,6 +26,7 @@ inductive Op
 inductive Callback
   | exitMethod (m : Obj)              -- MethodType(type(m).__exit__ / __aexit__, m): __func__.__name__ is "__exit__"/"__aexit__"
   | boundOther (self : Obj) (name : Nat)   -- some other bound method
+  | builtinBound (self : Obj)         -- a builtin bound method: has __self__, is not a types.MethodType, has no __func__
   | exitWrapper (f : Obj)             -- contextlib's _exit_wrapper, __wrapped__ = f, closes over args / kwds
   | plain (f : Obj)                   -- a plain function (no __self__, not an _exit_wrapper)
   deriving DecidableEq, Repr
@@ -40,6 +42,7 @@ def register : Op → Entry
   | .pushManager m => ⟨true, .exitMethod m⟩
   | .pushFunction f => ⟨true, .plain f⟩
   | .pushBoundMethod s n => ⟨true, .boundOther s n⟩
+  | .pushBuiltinBound s => ⟨true, .builtinBound s⟩
   | .callback f => ⟨true, .exitWrapper f⟩
   | .enterAsyncContext m => ⟨false, .exitMethod m⟩
   | .pushAsyncExitManager m => ⟨false, .exitMethod m⟩
@@ -71,6 +74,8 @@ def classify (idx : Nat) (e : Entry) : Child :=
     ⟨.manager m, !e.isSync, if e.isSync then .enterContext else .enterAsyncContext, !e.isSync, idx⟩
   | .boundOther s n =>      -- hasattr(__self__) but some other method: stack.push(something.exit_ish_method)
     ⟨.manager s, !e.isSync, if e.isSync then .push else .pushAsyncExit, false, idx⟩
+  | .builtinBound s =>      -- hasattr(__self__) and not a MethodType (the test never looks at __func__): taken for the manager's exit
+    ⟨.manager s, !e.isSync, if e.isSync then .enterContext else .enterAsyncContext, !e.isSync, idx⟩
   | .exitWrapper f =>       -- __wrapped__ and __name__ == "_exit_wrapper" with args/kwds free variables
     ⟨.callable (.exitWrapper f), !e.isSync, if e.isSync then .callback else .pushAsyncCallback, false, idx⟩
   | .plain f =>
@@ -87,6 +92,7 @@ def specOf (idx : Nat) : Op → Child
   | .pushManager m => ⟨.manager m, false, .enterContext, false, idx⟩
   | .pushFunction f => ⟨.callable (.plain f), false, .push, false, idx⟩
   | .pushBoundMethod s n => ⟨.manager s, false, .push, false, idx⟩
+  | .pushBuiltinBound s => ⟨.manager s, false, .enterContext, false, idx⟩
   | .callback f => ⟨.callable (.exitWrapper f), false, .callback, false, idx⟩
   | .enterAsyncContext m => ⟨.manager m, true, .enterAsyncContext, true, idx⟩
   | .pushAsyncExitManager m => ⟨.manager m, true, .enterAsyncContext, true, idx⟩
